@@ -9,6 +9,9 @@ CONSTANTS
  HeadBug = TRUE
  EqLockstep = FALSE
  AllowSharedRehash = FALSE
+ Sizes = {}
+ ZeroBins = FALSE
+ SelfAssignClears = FALSE
 VIEW View
-INVARIANTS Refines LengthOK ChainsOK LookupOK SharingOK EqualOK GhostOK
+INVARIANTS BinsOK Refines LengthOK ChainsOK LookupOK SharingOK EqualOK GhostOK
 CHECK_DEADLOCK FALSE
